@@ -105,12 +105,17 @@ class PIT(DNAS):
         self.discrete_cost = discrete_cost
         self.full_cost = full_cost
         # Restore training status after forced `eval()` in convert
+        shared_training = [(m, m.training) for m in model.modules()]
         if self.is_training:
             self.train()
             self.seed.train()
         else:
             self.eval()
             self.seed.eval()
+        # train()/eval() recurse into the sub-modules that the seed shares by reference with the
+        # caller's model: those keep the flag the caller gave them (e.g. a frozen BatchNorm)
+        for m, mode in shared_training:
+            m.training = mode
 
     def forward(self, *args: Any) -> torch.Tensor:
         """Forward function for the DNAS model. Simply invokes the inner model's forward
